@@ -35,10 +35,8 @@ good &= ok(R.pure_helper("src/m.rs", "meth") is None and R.pure_helper("src/m.rs
 S.INLINE_HELPERS = {"calls": (["state", "tx"], "!tx.outputs.is_empty() && state.coins.get_coin(tx.id(0)).is_some()", False, ["&S", "&T"])}
 t, n = S.inline_helpers("fn f() { if calls(state, &tx) { g() } }")
 good &= ok(n == 1 and "(!(&tx).outputs.is_empty() && (state).coins.get_coin((&tx).id(0)).is_some())" in t, "R25 substitution")
-try:
-    S.inline_helpers("fn f() { calls(mk_state(), &tx) }"); good &= ok(False, "non-place argument refused")
-except Undecided:
-    good &= ok(True, "non-place argument refused (undecided)")
+t, n = S.inline_helpers("fn f() { calls(mk_state(), &tx) }")
+good &= ok(n == 1 and "({ let state: &S = mk_state(); let tx: &T = &tx; !tx.outputs.is_empty()" in t, "non-place argument: evaluated once through the let-block form")
 t, n = S.inline_helpers("fn f() { x.calls(1) ; S::calls ; }")
 good &= ok(n == 0, "method / path occurrences of the name are not calls of the free helper")
 S.INLINE_HELPERS = {"block1": (["a", "b"], "let total = a + b; total", True, ["V", "V"])}
